@@ -323,6 +323,27 @@ theorem scanTail_delim (d : UInt8) (tail : Bytes) (h : IsDelim d) :
   · simp [scanFrac, h2]
   · simp [scanExp, h3, h4]
 
+theorem scanInt_digits' (ds : Bytes) (d : UInt8) (tail : Bytes) (hne : ds ≠ []) (hd : ∀ x ∈ ds, isDigit x = true)
+    (hz : ds.head? = some 0x30 → ds.length = 1) (h : isDigit d = false) :
+    scanInt (ds ++ d :: tail) = some (ds, d :: tail) := by
+  unfold scanInt
+  simp only []
+  rw [spanDigits_append ds d tail hd h]
+  simp only []
+  have h1 : ds.isEmpty = false := by cases ds <;> simp_all
+  rw [h1]
+  simp only [Bool.false_eq_true, if_false]
+  rw [if_neg]
+  intro hc
+  have := hz hc.1
+  omega
+
+theorem scanFrac_digits (fr : Bytes) (d : UInt8) (tail : Bytes) (hne : fr ≠ []) (hd : ∀ x ∈ fr, isDigit x = true)
+    (h : isDigit d = false) : scanFrac (0x2E :: (fr ++ d :: tail)) = some (0x2E :: fr, d :: tail) := by
+  unfold scanFrac
+  have h1 : fr.isEmpty = false := by cases fr <;> simp_all
+  simp [spanDigits_append fr d tail hd h, h1]
+
 theorem scanInt_digits (ds : Bytes) (d : UInt8) (tail : Bytes) (hne : ds ≠ []) (hd : ∀ x ∈ ds, isDigit x = true)
     (hz : ds.head? = some 0x30 → ds.length = 1) (h : IsDelim d) :
     scanInt (ds ++ d :: tail) = some (ds, d :: tail) := by
@@ -370,6 +391,44 @@ theorem numLit_int (ds : Bytes) (hne : ds ≠ []) (hd : ∀ x ∈ ds, isDigit x 
     rw [this]
     simp only []
     rw [(scanTail_delim d tail h).1]
+    simp only []
+    rw [(scanTail_delim d tail h).2]
+    simp
+
+/-- every decimal literal `digits.digits` without superfluous leading zeros, with or without a sign -/
+theorem numLit_frac (ip fr : Bytes) (hne : ip ≠ []) (hd : ∀ x ∈ ip, isDigit x = true)
+    (hz : ip.head? = some 0x30 → ip.length = 1) (hfne : fr ≠ []) (hfd : ∀ x ∈ fr, isDigit x = true) :
+    NumLit (ip ++ 0x2E :: fr) ∧ NumLit (0x2D :: (ip ++ 0x2E :: fr)) := by
+  obtain ⟨c, r, rfl⟩ := List.exists_cons_of_ne_nil hne
+  have hc := hd c List.mem_cons_self
+  have hcm : c.toNat ≠ 0x2D := by
+    intro e
+    unfold isDigit at hc
+    simp [e] at hc
+  have hdot : isDigit 0x2E = false := by decide
+  have key : ∀ d tail, IsDelim d → scanInt ((c :: r) ++ 0x2E :: (fr ++ d :: tail)) = some (c :: r, 0x2E :: (fr ++ d :: tail)) :=
+    fun d tail _ => scanInt_digits' (c :: r) 0x2E _ hne hd hz hdot
+  constructor
+  · refine ⟨⟨c, r ++ 0x2E :: fr, rfl, Or.inr hc⟩, ?_⟩
+    intro d tail h
+    have k := key d tail h
+    unfold scanNum
+    simp only [List.cons_append, List.append_assoc, if_neg hcm] at k ⊢
+    rw [k]
+    simp only []
+    rw [scanFrac_digits fr d tail hfne hfd (delim_facts h).1]
+    simp only []
+    rw [(scanTail_delim d tail h).2]
+    simp
+  · refine ⟨⟨0x2D, c :: r ++ 0x2E :: fr, rfl, Or.inl (by decide)⟩, ?_⟩
+    intro d tail h
+    have k := key d tail h
+    unfold scanNum
+    have h2d : (0x2D : UInt8).toNat = 0x2D := by decide
+    simp only [List.cons_append, List.append_assoc, h2d, if_true] at k ⊢
+    rw [k]
+    simp only []
+    rw [scanFrac_digits fr d tail hfne hfd (delim_facts h).1]
     simp only []
     rw [(scanTail_delim d tail h).2]
     simp
@@ -572,5 +631,86 @@ theorem decodeTop_marshal (o : Obj) (hc : Canonical o) (hf : FlatObj o) :
   have hl : (0x7B :: (marshalMembers o ++ [0x7D])).length + 1 = ((marshalMembers o).length + 1) + 2 := by simp
   rw [hl, parseVal_obj _ o hc hf (Nat.le_succ_of_le (marshalMembers_length o))]
   simp [skipWs]
+
+/-! ### the class is closed under the hook's assignments -/
+
+theorem validUtf8_ascii (s : Bytes) (h : ∀ x ∈ s, x.toNat < 0x80) : ValidUtf8 s := by
+  refine ⟨s.map Seg.ascii, ?_, ?_⟩
+  · intro g hg
+    obtain ⟨x, hx, rfl⟩ := List.mem_map.mp hg
+    exact h x hx
+  · induction s with
+    | nil => rfl
+    | cons x r ih =>
+      simp only [List.map_cons, List.flatMap_cons, Seg.bytes, List.cons_append, List.nil_append]
+      rw [← ih (fun y hy => h y (List.mem_cons_of_mem _ hy))]
+
+theorem hexEnc_ascii (b : Bytes) : ∀ x ∈ hexEnc b, x.toNat < 0x80 := by
+  intro x hx
+  have := hexEnc_plain b x hx
+  unfold plainByte at this
+  simp only [Bool.and_eq_true, decide_eq_true_eq] at this
+  exact this.2
+
+theorem mem_setKey (k : Bytes) (v : JVal) (o : Obj) : ∀ kv ∈ setKey k v o, kv = (k, v) ∨ kv ∈ o := by
+  induction o with
+  | nil => intro kv h; simp [setKey] at h; exact Or.inl h
+  | cons kv0 r ih =>
+    obtain ⟨k', v'⟩ := kv0
+    intro kv h
+    simp only [setKey] at h
+    split at h
+    · rcases List.mem_cons.mp h with e | e
+      · exact Or.inl e
+      · exact Or.inr (List.mem_cons_of_mem _ e)
+    · split at h
+      · rcases List.mem_cons.mp h with e | e
+        · exact Or.inl e
+        · exact Or.inr e
+      · rcases List.mem_cons.mp h with e | e
+        · exact Or.inr (by rw [e]; exact List.mem_cons_self)
+        · rcases ih kv e with e' | e'
+          · exact Or.inl e'
+          · exact Or.inr (List.mem_cons_of_mem _ e')
+
+theorem flatObj_setKey (k : Bytes) (v : JVal) (o : Obj) (hk : ValidUtf8 k) (hv : ScalarV v) (ho : FlatObj o) :
+    FlatObj (setKey k v o) := by
+  intro kv h
+  rcases mem_setKey k v o kv h with e | e
+  · rw [e]; exact ⟨hk, hv⟩
+  · exact ho kv e
+
+theorem validUtf8_intKey : ValidUtf8 intKeyB := validUtf8_ascii _ (by decide)
+theorem validUtf8_chainKey : ValidUtf8 chainKeyB := validUtf8_ascii _ (by decide)
+theorem validUtf8_newVal : ValidUtf8 newValB := validUtf8_ascii _ (by decide)
+
+/-- the map the hook marshals stays in the class -/
+theorem hookMap_class (c : CryptoOps) (st : Calc) (o : Obj) (hc : Canonical o) (hf : FlatObj o) :
+    Canonical (jsonHookMap c st o) ∧ FlatObj (jsonHookMap c st o) := by
+  unfold jsonHookMap
+  simp only []
+  have h1 := canonical_setKey intKeyB (.str (hexEnc (st.step c (conv o)).2.1)) o hc
+  have h2 := flatObj_setKey intKeyB (.str (hexEnc (st.step c (conv o)).2.1)) o validUtf8_intKey
+    (.str _ (validUtf8_ascii _ (hexEnc_ascii _))) hf
+  split
+  · exact ⟨canonical_setKey _ _ _ h1, flatObj_setKey _ _ _ validUtf8_chainKey (.str _ validUtf8_newVal) h2⟩
+  · exact ⟨h1, h2⟩
+
+theorem marshal_obj_nonempty (o : Obj) : (marshal (.obj o)).isEmpty = false := by
+  simp [marshal]
+
+/-! ### one value of the authenticated bytes -/
+
+/-- `convertMapToBytes` separates the maps that differ in the value of one key exactly when `getBytes`
+separates the two values -/
+theorem convWith_setKey_inj (fast : Bool) (k : Bytes) (o : Obj) (v v' : JVal) :
+    convWith fast (setKey k v o) = convWith fast (setKey k v' o) ↔ getBytes fast v = getBytes fast v' := by
+  obtain ⟨A, B, h⟩ := convWith_setKey_split fast k o
+  rw [h v, h v']
+  constructor
+  · intro e
+    rw [List.append_assoc, List.append_assoc] at e
+    exact List.append_cancel_right (List.append_cancel_left e)
+  · intro e; rw [e]
 
 end AcraModel.AuditLog
